@@ -793,8 +793,13 @@ class SourceHandler:
                 self._params.positive_ack_params.ack_counter + 1
                 >= self._params.remote_cfg.positive_ack_timer_expiration_limit
             ):
-                self._declare_fault(ConditionCode.POSITIVE_ACK_LIMIT_REACHED)
-                return
+                if (
+                    self._declare_fault(ConditionCode.POSITIVE_ACK_LIMIT_REACHED)
+                    != FaultHandlerCode.IGNORE_ERROR
+                ):
+                    return
+                # The fault is ignored: the positive ACK procedure carries on, so the fault is not
+                # declared again by every following call.
             self._params.positive_ack_params.ack_timer.reset()
             self._params.positive_ack_params.ack_counter += 1
             # Re-send the same EOF PDU: its file size field is the progress, which also is the whole
@@ -813,8 +818,15 @@ class SourceHandler:
             or packet_holder.pdu_directive_type is None
             or packet_holder.pdu_directive_type != DirectiveType.FINISHED_PDU
         ):
-            if self._params.check_timer is not None and self._params.check_timer.timed_out():
-                self._declare_fault(ConditionCode.CHECK_LIMIT_REACHED)
+            if (
+                self._params.check_timer is not None
+                and self._params.check_timer.timed_out()
+                and self._declare_fault(ConditionCode.CHECK_LIMIT_REACHED)
+                == FaultHandlerCode.IGNORE_ERROR
+            ):
+                # The fault is ignored: wait for another interval instead of declaring it again with
+                # every following call.
+                self._params.check_timer.reset()
             return
         finished_pdu = packet_holder.to_finished_pdu()
         self._params.finished_params = finished_pdu.finished_params
@@ -976,7 +988,7 @@ class SourceHandler:
             self.seq_num_provider.max_bit_width // 8, next_seq_num
         )
 
-    def _declare_fault(self, cond: ConditionCode) -> None:
+    def _declare_fault(self, cond: ConditionCode) -> FaultHandlerCode | None:
         fh = self.cfg.default_fault_handlers.get_fault_handler(cond)
         # Cache those for later, because a notice of cancellation might lead to a reset of the
         # handler.
@@ -985,12 +997,13 @@ class SourceHandler:
         assert transaction_id is not None
         if fh == FaultHandlerCode.NOTICE_OF_CANCELLATION:
             if not self._notice_of_cancellation(cond):
-                return
+                return fh
         elif fh == FaultHandlerCode.NOTICE_OF_SUSPENSION:
             self._notice_of_suspension()
         elif fh == FaultHandlerCode.ABANDON_TRANSACTION:
             self._abandon_transaction()
         self.cfg.default_fault_handlers.report_fault(transaction_id, cond, progress)
+        return fh
 
     def _notice_of_cancellation(self, condition_code: ConditionCode) -> bool:
         """Returns whether the fault declaration handler can return prematurely."""
